@@ -136,7 +136,7 @@ def strict_ranges(h):
     _frame(h, s, vals, ['_useStrictRange', '_strictMin', '_strictMax', '_strictbounds', '_useTightRange', '_useClipRange'])
 
 
-@contract('C02/SetStrictRanges/argument-forms', ['C02', 'C07'], A + '.SetStrictRanges', native=False)
+@contract('C02/SetStrictRanges/argument-forms', ['C02', 'C07', 'C09'], A + '.SetStrictRanges', native=False)
 def strict_ranges_forms(h):
     """the other documented argument forms: a whole side None (the solver's default limit on that side), single entries
     None (completed by the default of THEIR side), min or max False (ranges switched off)"""
